@@ -110,6 +110,7 @@ def run(res, tier, rng, table_diffs=()):
             lit.append(("int-literal", "[%d, %d == %d, %d - 1, string(%d), type(%d)]" % (v, v, v + 1 if v + 1 < 2 ** 60 else v, v, v, v)))
     from .. import gen2
     lit += [("float-literal", p) for p in gen2.float_spelling_programs()]
+    lit += [("float-alias", p) for p in gen2.float_alias_programs()]
     run_cases(res, "C15", lit + [("collision", p) for p in collision_programs()] + [("history", p) for p in history_programs()])
     sp = specs(tier, rng)
     reqs = ["obj enc " + s for s in sp]
